@@ -109,6 +109,8 @@ pub trait CircuitUni: 'static {
     /// Evaluate every table's AIR constraints row by row on the given main matrices (p3's
     /// `DebugConstraintBuilder`, no proof): per table, `None` if satisfied, else (row, failures).
     fn constraint_check(keys: &Self::Keys, mats: &[p3_matrix::dense::RowMajorMatrix<Self::BF>]) -> Vec<Option<(usize, String)>>;
+    /// The ALU table's preprocessed matrix exactly as key generation commits to it.
+    fn alu_prep(keys: &Self::Keys) -> Option<p3_matrix::dense::RowMajorMatrix<Self::BF>>;
     /// Serialize / deserialize through the in-tree wire format (postcard).
     fn postcard_roundtrip(proof: &Self::Proof) -> Result<Self::Proof, String>;
 }
@@ -331,6 +333,13 @@ macro_rules! binomial_universe {
                         }
                     })
                     .collect()
+            }
+
+            fn alu_prep(keys: &Self::Keys) -> Option<p3_matrix::dense::RowMajorMatrix<Self::BF>> {
+                keys.3.iter().find_map(|air| match air {
+                    p3_circuit_prover::common::CircuitTableAir::Alu(a) => p3_air::BaseAir::<Self::BF>::preprocessed_trace(a),
+                    _ => None,
+                })
             }
 
             fn postcard_roundtrip(proof: &Self::Proof) -> Result<Self::Proof, String> {
